@@ -223,6 +223,39 @@ pub fn run(opts: &Opts) -> Report {
         check(&mut rep, "annotate(with_data)", guardb(&|| { let mut st = AnnotationStore::default().with_resource(TextResourceBuilder::new().with_id("r").with_text("hello world"))?; for (i, (k, v)) in pairs.iter().enumerate() { st.annotate(AnnotationBuilder::new().with_target(SelectorBuilder::textselector("r", Offset::simple(i, i + 1))).with_data("set", *k, *v))?; } Ok(st) }));
         check(&mut rep, "one annotation naming the pair twice", guardb(&|| { let mut st = AnnotationStore::default().with_resource(TextResourceBuilder::new().with_id("r").with_text("hello world"))?; let mut b = AnnotationBuilder::new().with_target(SelectorBuilder::textselector("r", Offset::simple(0, 1))); for (k, v) in pairs { b = b.with_data("set", k, v); } st.annotate(b)?; Ok(st) }));
     }
+    // ---------- data naming no dataset (the library supplies one), twice; a test against a key that does not exist ----------
+    {
+        rep.count("dedup-path:data-without-a-dataset-twice");
+        rep.case(Some("dedup-path data-without-a-dataset-twice"));
+        let ctx = vec!["two annotations whose data names no dataset: with_data_builder(AnnotationDataBuilder::new().with_key(\"pos\").with_value(\"noun\"))".to_string()];
+        let r = guarded(std::panic::AssertUnwindSafe(|| -> Result<(usize, usize), StamError> {
+            let mut st = AnnotationStore::default().with_resource(TextResourceBuilder::new().with_id("r").with_text("hello world"))?;
+            for i in 0..2 { st.annotate(AnnotationBuilder::new().with_id(format!("a{}", i)).with_target(SelectorBuilder::textselector("r", Offset::simple(i, i + 1))).with_data_builder(AnnotationDataBuilder::new().with_key("pos".into()).with_value("noun".into())))?; }
+            Ok((st.datasets().count(), st.datasets().map(|d| d.data().count()).sum()))
+        }));
+        match r {
+            Ok(Ok((1, 1))) => {}
+            Ok(Ok(other)) => rep.fail("oracle", "vocabulary/dedup-path/no-dataset-named", ctx, "one dataset holding one item", &format!("{:?} (datasets, items)", other)),
+            Ok(Err(e)) => rep.fail("oracle", "vocabulary/dedup-path/no-dataset-named/refused", ctx, "one dataset holding one item", &format!("{}", e)),
+            Err(m) => rep.fail("panic", "vocabulary/dedup-path/no-dataset-named/panic", ctx, "one dataset holding one item", &m),
+        }
+        rep.count("test:key-that-does-not-exist");
+        rep.case(Some("test key-that-does-not-exist"));
+        let r = guarded(std::panic::AssertUnwindSafe(|| -> Result<(bool, bool, bool), StamError> {
+            let mut st = AnnotationStore::default();
+            st.add_dataset(AnnotationDataSetBuilder::new().with_id("set").with_key_value("pos", "noun"))?;
+            let ds = st.dataset("set").expect("dataset");
+            let d = ds.data().next().expect("item");
+            Ok((d.test("pos", &DataOperator::Equals("noun".into())), d.test("nokey", &DataOperator::Equals("noun".into())), d.key().test("nokey")))
+        }));
+        let ctx = vec!["data (pos, noun): data.test(\"pos\", =noun), data.test(\"nokey\", =noun), data.key().test(\"nokey\")".to_string()];
+        match r {
+            Ok(Ok((true, false, false))) => {}
+            Ok(Ok(other)) => rep.fail("oracle", "test/unknown-key", ctx, "(true, false, false)", &format!("{:?}", other)),
+            Ok(Err(e)) => rep.fail("oracle", "test/unknown-key", ctx, "(true, false, false)", &format!("{}", e)),
+            Err(m) => rep.fail("panic", "test/unknown-key/panic", ctx, "(true, false, false)", &m),
+        }
+    }
     // ---------- find_data = scan ----------
     let nstores = if opts.thorough() { 400 } else { 60 };
     for si in 0..nstores {
